@@ -11,7 +11,7 @@ from .common import (BaseHooks, V, finite, fnum, is_qmat, key, logspace_sigma, n
 PROP = "C04"
 WORLDS_QUICK = ("pkg", "flat")
 WORLDS_THOROUGH = ("pkg", "flat", "pkg_then_flat", "flat_then_pkg")
-FAMILIES = ("generic", "herm", "unitary", "cI", "I_lowrank", "tri", "diagrep")
+FAMILIES = ("generic", "herm", "unitary", "cI", "I_lowrank", "tri", "diagrep", "spread")
 B_KINDS = ("gauss", "gauss", "eigvec", "zero", "unit", "Ax_int")
 SWEEP_FOCUS = ["solve", "_solve_lower_triangular_quat", "_solve_upper_triangular_quat",
                "quaternion_lu", "quat_matmat"]
@@ -46,6 +46,23 @@ def gen_system(R, nmax):
     elif fam == "tri":
         A = {"gen": "tri", "n": n, "seed": s, "upper": R.random() < 0.5,
              "off": R.choice([0.1, 0.3])}
+    elif fam == "spread":
+        # entries of widely different magnitude without unitary mixing (still cond <= 1e3):
+        # a diagonal with graded moduli, or a generic block next to a large multiple of I
+        if n == 1 or R.random() < 0.5:
+            mags = logspace_sigma(R, n, max(cond, 10.0))
+            units = [[1.0, 0, 0, 0], [0, 1.0, 0, 0], [0.6, 0, 0.8, 0], [0.5, 0.5, 0.5, 0.5]]
+            vals = []
+            for v in mags:
+                u = R.choice(units)
+                vals.append([round_sig(v * c) for c in u])
+            R.shuffle(vals)
+            A = {"gen": "diagq", "vals": vals}
+        else:
+            k1 = R.randint(1, n - 1)
+            A = {"gen": "blockdiag", "blocks": [
+                {"gen": "psvd", "m": k1, "n": k1, "seed": s, "sigma": [round_sig(v) for v in logspace_sigma(R, k1, 3.0)]},
+                {"gen": "cI", "n": n - k1, "c": float(R.choice([1e2, 1e3, 30.0]))}]}
     else:  # diagonal with repeated entries
         pool = [1.0, 2.0, -0.5, [0.0, 1.0, 0.0, 0.0], [1.0, 1.0, 0.0, 0.0], [0.5, 0.0, -0.5, 1.0]]
         kd = R.randint(1, min(3, n))
